@@ -50,7 +50,7 @@ try:
         shutil.copy(patch, f"{d}/patch.diff")
         shutil.copy(demo, f"{d}/demo.py")
         m = json.load(open(meta)) if os.path.exists(meta) else {}
-        json.dump(dict(property=pid, breaks=m.get("what_it_breaks"), needs_to_manifest=m.get("what_it_needs_to_manifest"),
+        json.dump(dict(property=pid, breaks=m.get("what_it_breaks") or m.get("breaks"), needs_to_manifest=m.get("what_it_needs_to_manifest") or m.get("needs_to_manifest"),
                        files_changed=m.get("files_changed"), confirmed_by_me=out), open(f"{d}/meta.json", "w"), indent=1)
 finally:
     subprocess.run(["git", "-C", "/repo", "worktree", "remove", "--force", wt], capture_output=True)
